@@ -5,7 +5,8 @@
 (* from valid formulae, formulae with wild-cards, invalid text, comments,  *)
 (* blank and indented lines; every print option; with and without context  *)
 (* archive (readable or not, with or without the label); with and without  *)
-(* output archive; unreadable model / formula file -- and checks that      *)
+(* output archive (on a fresh path or over an older archive); unreadable   *)
+(* model / formula file -- and checks that                                 *)
 (* formulae are reported in file order, that a failing run prints one      *)
 (* message and nothing else, and that a finished run reported and archived *)
 (* every formula.                                                          *)
@@ -24,9 +25,9 @@ Full(r) == [modelOk |-> r.modelOk, fileOk |-> r.fileOk, lines |-> r.lines, opt |
             ctxOk |-> r.ctxOk, ctxLabels |-> r.ctxLabels, out |-> r.out,
             netVars |-> {"a"}, n |-> 1, lib |-> [j \in 1..2 |-> {j - 1}]]
 VARIABLE run
-Init == run \in Runs /\ CInit
+Init == run \in Runs /\ \E oldThere \in BOOLEAN : CInitWith(oldThere)
 Next == CNext(Full(run)) /\ UNCHANGED run
 Spec == Init /\ [][Next]_<<cvars, run>> /\ WF_cvars(Next)
-Inv == InOrder /\ FailQuiet /\ Complete(Full(run))
+Inv == InOrder /\ FailQuiet /\ FailKeepsOld /\ Replaced /\ Complete(Full(run))
 Terminates == <>(pc \in {"done", "failed"})
 =============================================================================
